@@ -444,7 +444,135 @@ fn small_cases(max_len: usize) -> impl Iterator<Item = SmallCase> {
     })
 }
 
+/// Live: the mapping list the dumper derives for a real target vs its /proc/pid/maps.
+pub fn check_live(c: &crate::props::c08::Case) -> Verdict {
+    use crate::vcore::target::*;
+    use crate::vcore::world::*;
+    // reuse C08's scenario builder by running its check's setup: simplest is to build a small target here
+    init_scratch();
+    let scratch = Target::new_scratch();
+    let mut b = Builder::new();
+    for (i, im) in c.images.iter().enumerate() {
+        let path = scratch.join(format!("m{i}.so")).to_string_lossy().into_owned().into_bytes();
+        let pads: Vec<u8> = im.pad_perms.iter().take(3).cloned().collect();
+        b.spec.files.push((path.clone(), vec![0x11u8; 4096 * (1 + pads.len())]));
+        let base = b.next_map_addr();
+        let mut at = base;
+        b.add_file_map_at(at, 1, (im.first_perms & 7) | 1, &path, 0, false);
+        at += PAGE;
+        let gap_k = im.gap_after.map(|k| k as usize % (1 + pads.len()));
+        for part in 0..=pads.len() {
+            if part > 0 {
+                b.add_file_map_at(at, 1, pads[part - 1] & 7, &path, part as u64, false);
+                at += PAGE;
+            }
+            if gap_k == Some(part) {
+                b.add_anon_at(at, 1, 0, 0);
+                at += PAGE;
+            }
+        }
+        if im.unlink {
+            b.spec.unlinks.push(path);
+        }
+    }
+    let spec = b.spec.clone();
+    let t = match Target::spawn(&spec, scratch) {
+        Ok(t) => t,
+        Err(e) => return Verdict::Inconclusive(format!("target setup: {}", e.split(':').next().unwrap_or(""))),
+    };
+    if !t.wait_settled(&spec) {
+        return Verdict::Inconclusive("target did not settle".into());
+    }
+    let text = t.maps_text().unwrap_or_default();
+    let gate = crate::props::c01::true_auxv(t.pid)[2];
+    let dumper = minidump_writer::ptrace_dumper::PtraceDumper::new_report_soft_errors(t.pid, std::time::Duration::from_millis(2000), Default::default(), error_graph::strategy::DontCare);
+    let dumper = match dumper {
+        Ok(d) => d,
+        Err(e) => return Verdict::viol("C13:live:dumper-init-failed", format!("{e:?}")),
+    };
+    let mut out = dumper.mappings.clone();
+    drop(dumper);
+    if text != t.maps_text().unwrap_or_default() {
+        return Verdict::Inconclusive("memory map changed".into());
+    }
+    // the dumper moves the entry-point mapping to the front: judge the set in address order
+    out.sort_by_key(|m| m.start_address);
+    let lines = crate::props::fid::parse_maps(&text);
+    // same invariants as the pure check, on real kernel text
+    let resolved: Vec<Resolved> = lines
+        .iter()
+        .map(|l| Resolved {
+            start: l.start,
+            end: l.end,
+            perms: l.perms,
+            offset: 0,
+            name: Name::None,
+        })
+        .collect();
+    let _ = resolved;
+    macro_rules! bad {
+        ($sig:expr, $($arg:tt)*) => { return Verdict::viol(format!("C13:live:{}", $sig), format!($($arg)*)) };
+    }
+    for w in out.windows(2) {
+        if w[0].start_address + w[0].size > w[1].start_address {
+            bad!("order-or-overlap", "[{:#x},+{:#x}) vs next {:#x}", w[0].start_address, w[0].size, w[1].start_address);
+        }
+    }
+    let mut merges = 0;
+    for l in &lines {
+        let n = out.iter().filter(|m| m.start_address as u64 <= l.start && l.end <= (m.start_address + m.size) as u64).count();
+        if n != 1 {
+            bad!(if n == 0 { "line-not-covered" } else { "line-in-two" }, "line [{:#x},{:#x}) {} is in {n} derived mappings", l.start, l.end, l.name);
+        }
+    }
+    for m in &out {
+        let mine: Vec<&crate::props::fid::MapLine> = lines.iter().filter(|l| m.start_address as u64 <= l.start && l.end <= (m.start_address + m.size) as u64).collect();
+        if mine.is_empty() {
+            bad!("invented-output", "derived mapping [{:#x},+{:#x}) contains no line", m.start_address, m.size);
+        }
+        if mine[0].start != m.start_address as u64 || mine.last().unwrap().end != (m.start_address + m.size) as u64 {
+            bad!("hull", "derived mapping [{:#x},+{:#x}) is not the hull of its lines", m.start_address, m.size);
+        }
+        let strip = |n: &str| n.strip_suffix(" (deleted)").unwrap_or(n).to_string();
+        let first_name = strip(&mine[0].name);
+        for (j, w) in mine.windows(2).enumerate() {
+            if w[0].end != w[1].start {
+                bad!("merged-non-contiguous", "lines at {:#x} and {:#x} merged across a hole", w[0].start, w[1].start);
+            }
+            merges += 1;
+            let cur = w[1];
+            let same = !cur.name.is_empty() && strip(&cur.name) == first_name;
+            let noaccess = cur.perms & 7 == 0;
+            let is_path = first_name.contains('/');
+            let exec_before = mine[..=j].iter().any(|l| l.perms & 4 != 0);
+            let next_same = mine.get(j + 2).map(|l| !l.name.is_empty() && strip(&l.name) == first_name).unwrap_or(false);
+            if !(same || (noaccess && is_path && (exec_before || next_same))) {
+                bad!("unjustified-merge", "line [{:#x},{:#x}) '{}' merged into the mapping of '{}'", cur.start, cur.end, cur.name, first_name);
+            }
+        }
+    }
+    if gate != 0 {
+        if let Some(m) = out.iter().find(|m| m.start_address as u64 == gate) {
+            if m.name.as_deref().and_then(|n| n.to_str()) != Some("linux-gate.so") {
+                bad!("gate-name", "mapping at the vDSO address {gate:#x} is named {:?}", m.name);
+            }
+        }
+    }
+    Verdict::pass_c(if merges > 0 { Some(fp_json(c)) } else { None }, vec![format!("merges:{}", merges.min(9))])
+}
+
 pub fn run(ctx: &mut LaneCtx) {
+    ctx.run_sub(
+        SubSpec {
+            name: "live-maps",
+            cases: (160, 10_000),
+            rule: "live targets with 1..6 files mapped in 1..4 parts of differing permissions with optional PROT_NONE gaps, some unlinked; the mapping list the dumper derives (PtraceDumper init) is judged against the kernel's /proc/pid/maps text with the same invariants (order, exact cover, hull, merge justification, gate name); non-trivial = at least one merge; distinct = hash of case",
+            strategy: crate::props::c08::case_strategy().boxed(),
+            max_shrink_iters: 100,
+            log_current: true,
+        },
+        check_live,
+    );
     ctx.assume("'well-formed' = accepted by procfs_core::MemoryMaps::from_read (the parser the dumper uses); under-merging is not judged (the statement only bounds merging from above)");
     ctx.assume("don't-care merge decisions: named or shared no-access line in gap position; same path where only one line carries the kernel's ' (deleted)' marker; vDSO address equal to the start of a file mapping");
     ctx.run_sub(
@@ -470,6 +598,7 @@ pub fn run(ctx: &mut LaneCtx) {
 pub fn replay(sub: &str, case: &Value) -> Verdict {
     match sub {
         "generated-maps" => replay_case::<Case>(case, check),
+        "live-maps" => replay_case::<crate::props::c08::Case>(case, check_live),
         "small-scope" => replay_case::<SmallCase>(case, check_small),
         _ => Verdict::Inconclusive(format!("unknown sub {sub}")),
     }
